@@ -208,6 +208,34 @@ CHECKS = {
          'stop is requested. F19 (a failing tx consumer with a full channel blocks the shutdown) needs an environment fault outside the '
          'property\'s quantifier and is described in DESIGN.md only.',
     technique='TLA+ spec + TLC exhaustive + scenario replay against the real Run()/Stop() over loop-back TCP with trace validation'),
+ 'C15': dict(
+    engine='WireStream',
+    category='model_checking',
+    text='TLA+ specification of the client protocol as a byte stream (spec/WireStream.tla: the type table of 37 codes and names with its one-to-one '
+         'ASSUME, a writer appending messages identified by type code and value class, a reader consuming them, prefix cuts; invariants Framing, '
+         'PrefixFails, Clean checked by TLC). Every (type, value class) singleton - 37 message types plus the stored transaction record, 5 classes placing '
+         'list lengths, byte lengths and integers at the varint width boundaries and switching optional fields - and TLC-simulated streams of up to 8 '
+         'messages are run through the real Serialize / Deserialize (SaveTxState / FetchTxState for the stored record) on a real byte stream; TLC evaluates '
+         'RoundTrip (structural and byte-for-byte equality), ExactConsumption, Framing, PrefixFails (every strict prefix fails with an error) on the recorded '
+         'operations, compares the code\'s type table (PayloadForType, names, each payload\'s own Type()) with the specification\'s, and validates every operation against the specification.',
+    design_ref='DESIGN.md 5.9, 6 (C15)',
+    note='Model-based verification adds the stream/framing state machine, the type table and the case enumeration; value fidelity itself is sampled by classes, '
+         'not proved for all representable values (see DESIGN.md on the limits of the technique for this property). Known finding F37 (dependency: BSOR '
+         'uint64 >= 2^63 in send_expanded_tx).',
+    technique='TLA+ stream/framing spec + TLC + replay of generated streams through the real codecs with trace validation'),
+ 'C20': dict(
+    engine='WireStream',
+    category='model_checking',
+    text='The Hostile action of spec/WireStream.tla (the decoder answers with a value or an error; invariant Clean) and the TLC enumeration of hostile cases '
+         '(spec/WireCases.tla: 38 types x 2 value classes x 4 lies, 4 stored record kinds x 6 lies). The harness writes the lie (a count or length claiming '
+         '65535 / 2^32-1 / 2^63 / 2^64-1 elements, for stored records also -1 and 2^31-1) over every position of the valid encoding, with the tail kept and cut, '
+         'and decodes every input with the real decoders / repository loaders in child processes with a 3 GiB address space; panics are recovered and '
+         'counted, the allocation of each decode is measured, a killed child is attributed to its input. TLC (Props_WireHostile) judges NoPanic, Terminates, AllocBounded.',
+    design_ref='DESIGN.md 5.9, 6 (C20)',
+    note='F12 (13 message decoders and the peers / reorg record parsers allocated by claimed counts: panics and out-of-memory kills) found and repaired. Known '
+         'finding F12b: the transaction decoder of the dependency tokenized/pkg/wire still allocates by claimed counts (not repairable in this repository). '
+         'Inputs are single-position mutations of valid encodings, not all byte strings.',
+    technique='TLA+ case enumeration + TLC judgement of decodes run in memory-limited child processes'),
 }
 
 NOT_YET = {}
